@@ -33,6 +33,7 @@ META['explanation'] += ' ' + 'R5: protocol constants, and the LDAP StartTLS requ
 META['explanation'] += ' ' + 'R11: flag keyed optional parts (shared with C01.R12). R12: flag / timestamp tabulation incl. repeated members.'
 
 META['explanation'] += ' ' + 'R13 / R14: no function changes a module level container / class level state on the way from bytes to message. R15: reported lengths (shared with C03.R3). R16: the LDAP result code map evaluated against the enumeration. R17: lower bounds on length fields admit the value composed for empty data (shared with C01.R22).'
+META['explanation'] += ' ' + 'R18: OpenVPN parse_header evaluated for key ids 0..7 of every opcode and for the sibling opcodes. R19: collections handed to compose_numeric_flags followed back to the attribute (shared with C11.R15).'
 MODULES = {'cryptoparser.tls.mysql', 'cryptoparser.tls.rdp', 'cryptoparser.tls.openvpn', 'cryptoparser.tls.postgresql', 'cryptoparser.tls.ldap'}
 HERE = os.path.dirname(os.path.dirname(os.path.abspath(__file__)))
 
